@@ -5,6 +5,7 @@ from ..core import (AnalysisError, dotted, unparse, calls_in, call_name,
                     walk_no_defs, parent, ancestors, ClassInfo, FuncInfo)
 from ..flow import guards_at, flatten_guards, always_exits, SeqFlow, RETURN
 from ..mutate import Mutant, in_func
+from .. import guardspec
 
 ID = 'C11'
 EXPLANATION = (
@@ -742,6 +743,57 @@ def rule_r6(prog, res):
     res.floor('R6', 'routing assignments in match_pattern', j, 1)
 
 
+# ------------------------------------------------------------------- R7
+def rule_r7(prog, res):
+    res.rule('R7', 'nothing outside the routing table claims a request: the '
+             'WSDL shortcut needs "?wsdl" or a ".wsdl" suffix, transports '
+             'keep their patterns per instance, name conflicts are only '
+             'waived for identical classes')
+    w = prog.cls('spyne.server.wsgi:WsgiApplication')
+    f = w.methods.get('is_wsdl_request')
+    if f is None:
+        raise AnalysisError('WsgiApplication.is_wsdl_request', 'not found')
+    n = 0
+    for c in calls_in(f.node):
+        if call_name(c) == 'endswith' and c.args and isinstance(
+                c.args[0], ast.Constant):
+            n += 1
+            lit = c.args[0].value
+            ok = isinstance(lit, str) and lit.startswith('.')
+            where = '%s:%d' % (f.module.relpath, c.lineno)
+            res.ob('R7', where, 'is_wsdl_request: path suffix %r' % (lit,),
+                   'ok' if ok else 'VIOLATED')
+            if not ok:
+                res.finding('R7', 'WsgiApplication.is_wsdl_request|suffix|%s'
+                            % lit, where, 'a GET whose path merely ends in '
+                            '%r is answered with the WSDL before any '
+                            'routing: a registered method named get_wsdl '
+                            'never runs, an unregistered one gets a document '
+                            'instead of a not-found fault' % (lit,))
+    res.floor('R7', 'suffix tests in is_wsdl_request', n, 1)
+    from . import c12
+    from ..report import Result
+    res.share('R7', 'nothing outside the routing table claims a request',
+              'C12', c12.rule_r6, prog, Result)
+    itf = prog.cls('spyne.interface._base:Interface')
+    h = itf.methods.get('has_class')
+    k = 0
+    allowed = [('c is None', False), ('o1 is o2', None),
+               ('issubclass(cls, ComplexModelBase)', True),
+               ('issubclass(c, ComplexModelBase)', True),
+               ('set((o1, o2)) == set((Array, Iterable))', True),
+               ('not issubclass(c, ComplexModelBase) or not issubclass(cls, '
+                'ComplexModelBase)', True)]
+    for r in walk_no_defs(h.node):
+        if isinstance(r, ast.Return) and isinstance(
+                r.value, ast.Constant) and r.value.value is True:
+            k += 1
+            guardspec.check(res, 'R7', h, r, 'the waiver of a class-name '
+                            'conflict', allowed=allowed,
+                            key='Interface.has_class|waiver|%d' % k)
+    res.floor('R7', 'waivers in Interface.has_class', k, 2)
+
+
 def run(prog, res, tier):
     res.run_rule(rule_r1, prog, res, tier)
     res.run_rule(rule_r2, prog, res)
@@ -749,6 +801,7 @@ def run(prog, res, tier):
     res.run_rule(rule_r4, prog, res)
     res.run_rule(rule_r5, prog, res)
     res.run_rule(rule_r6, prog, res)
+    res.run_rule(rule_r7, prog, res)
 
 
 _P = 'spyne/protocol/_base.py'
@@ -759,6 +812,18 @@ _W = 'spyne/server/wsgi.py'
 _X = 'spyne/protocol/xml.py'
 
 MUTANTS = [
+    Mutant('wsdl-shortcut-any-suffix', 'R7', 'fire', _W,
+           in_func('WsgiApplication.is_wsdl_request',
+                   "req_env['PATH_INFO'].endswith('.wsdl')",
+                   "req_env['PATH_INFO'].endswith('wsdl')"), 'suffix'),
+    Mutant('same-structure-conflict-waived', 'R7', 'fire', _I,
+           in_func('Interface.has_class',
+                   "            raise ValueError(\"classes %r and %r have "
+                   "conflicting names",
+                   "            if o1._type_info == o2._type_info:\n"
+                   "                return True\n"
+                   "            raise ValueError(\"classes %r and %r have "
+                   "conflicting names"), 'extra-guard'),
     Mutant('public-methods-by-public-name', 'R6', 'fire', 'spyne/service.py',
            in_func('ServiceMeta.__init__',
                    "self.public_methods[k] = descriptor",
